@@ -6,6 +6,7 @@ import (
 	"encoding/hex"
 	"fmt"
 
+	"github.com/onflow/cadence"
 	"github.com/onflow/cadence/common"
 	"github.com/onflow/cadence/encoding/ccf"
 	cdcerrors "github.com/onflow/cadence/errors"
@@ -153,14 +154,14 @@ func TraceOf(r host.Result, h *host.Host) StepTrace {
 		st.Panic = fmt.Sprint(r.Panic)
 	}
 	if r.Value != nil {
-		if b, err := ccf.Encode(r.Value); err == nil {
+		if b, err := safeCCF(r.Value); err == nil {
 			st.ValueCCF = hex.EncodeToString(b)
 		} else {
 			st.ValueCCF = "!" + err.Error()
 		}
 	}
 	for _, e := range r.Events {
-		b, err := ccf.Encode(e)
+		b, err := safeCCF(e)
 		if err != nil {
 			st.Events = append(st.Events, "!"+err.Error())
 			continue
@@ -190,6 +191,17 @@ func TraceOf(r host.Result, h *host.Host) StepTrace {
 		st.Digest = h.Ledger.Digest()
 	}
 	return st
+}
+
+// safeCCF encodes v as CCF; a panic of the encoder (C42's concern, not ours) is
+// turned into an error so that it becomes part of the compared trace.
+func safeCCF(v cadence.Value) (b []byte, err error) {
+	defer func() {
+		if r := recover(); r != nil {
+			err = fmt.Errorf("ccf encoder panic: %v", r)
+		}
+	}()
+	return ccf.Encode(v)
 }
 
 // RunTrace executes the item and returns its outcome trace.
